@@ -37,6 +37,8 @@ def gen_ll(rng):
         case = c01.gen_case(rng, numeric=True)
     case['posterior'] = rng.random() < 0.4
     case['fix'] = rng.random() < 0.25
+    # fixed, evaluated with sensitivities, set free again: the object is the full likelihood again
+    case['refree'] = (not case['fix']) and rng.random() < 0.25
     case['type'] = 'll'
     return case
 
@@ -50,6 +52,11 @@ def build_ll(case):
         name = ll.get_parameter_names()[1]
         ll.fix_parameters({name: theta[1]})
         keep.remove(1)
+    if case.get('refree'):
+        name = ll.get_parameter_names()[1]
+        ll.fix_parameters({name: theta[1]})
+        ll.evaluateS1([theta[k] for k in range(len(theta)) if k != 1])
+        ll.fix_parameters({name: None})
     obj, prior = ll, None
     if case.get('posterior'):
         prior = pints.ComposedLogPrior(*[pints.GaussianLogPrior(1.0 + 0.25 * k, 2.0) for k in range(len(keep))])
@@ -61,8 +68,13 @@ def run_ll(case):
     obj, ll, prior, keep = build_ll(case)
     theta = np.array([case['theta'][k] for k in keep], dtype=float)
     before = theta.copy()
-    v = float(obj(theta))
-    s, g = obj.evaluateS1(theta)
+    if case.get('refree') or len(case['grids'][0]) % 2 == 0:
+        # (a plain evaluation switches the sensitivities off and on again: evaluate with sensitivities first)
+        s, g = obj.evaluateS1(theta)
+        v = float(obj(theta))
+    else:
+        v = float(obj(theta))
+        s, g = obj.evaluateS1(theta)
     out = {'value': v, 's1': float(s), 'grad': [float(x) for x in g], 'keep': keep,
            'mutated': not np.array_equal(theta, before), 'n_parameters': int(obj.n_parameters())}
     if prior is not None:
